@@ -19,7 +19,7 @@ pub fn gen_object(t: &mut Tape) -> Option<GenObj> {
     let mut traits = BTreeSet::new();
     if t.chance(2, 3) {
         // single file
-        let (prog, info) = gen_wellformed(t, &ProgCfg { max_stmts: 20, ..ProgCfg::default() });
+        let (prog, info) = gen_wellformed(t, &ProgCfg { max_stmts: 20, huge: true, ..ProgCfg::default() });
         let plain = t.chance(1, 6);
         let rendered = render(&prog, t, RenderOpts { plain, wild_comments: true });
         let model = asm_model(&prog);
@@ -35,6 +35,9 @@ pub fn gen_object(t: &mut Tape) -> Option<GenObj> {
         }
         if info.blocks >= 2 {
             traits.insert("multi-block");
+        }
+        if f.model.blocks.iter().any(|(_, len)| *len > 21845) {
+            traits.insert("block-longer-than-21845-words");
         }
         if f.prog.is_empty() {
             traits.insert("empty-source");
